@@ -11,7 +11,7 @@ use std::panic::{catch_unwind, AssertUnwindSafe};
 
 pub fn cases(t: Tier) -> u64 {
     match t {
-        Tier::Quick => 400,
+        Tier::Quick => 800,
         Tier::Thorough => 8000,
     }
 }
@@ -59,7 +59,7 @@ pub fn gen_coherence(r: &mut Rng) -> MProgram {
         p.traits.push(MTrait { name: format!("T{}", ti), nparams, marker, ..Default::default() });
         let n = 2 + r.below(4);
         let mut prev: Vec<MImpl> = vec![];
-        if r.chance(30) && nparams == 0 {
+        if r.chance(40) && nparams == 0 {
             // a specialization chain of 3-5 impls, each instantiating a parameter of the previous header, declared in
             // a shuffled order: T, Vec<T>, Vec<Vec<T>>, Vec<Vec<A>> ...
             let mut chain: Vec<MImpl> = vec![];
@@ -74,12 +74,26 @@ pub fn gen_coherence(r: &mut Rng) -> MProgram {
                 if used.is_empty() {
                     break;
                 }
+                // siblings: the same general impl specialised to two different constants (mutually disjoint)
+                if r.chance(50) {
+                    let c = MTy::nullary(*r.pick(&["A", "B", "C"]));
+                    let sib = cur.subst(&|_| c.clone());
+                    if !chain.iter().any(|im| im.head.args[0] == sib) {
+                        chain.push(MImpl { nvars: 0, head: MPred { tr: format!("T{}", ti), args: vec![sib] }, positive: true, ..Default::default() });
+                    }
+                }
                 cur = cur.subst(&|_| rep.clone());
             }
+            chain.dedup_by(|a, b| a.head == b.head);
             r.shuffle(&mut chain);
             for im in chain {
                 prev.push(im.clone());
                 p.impls.push(im);
+            }
+            // half of the time the chain (a tree with its siblings) is all there is for this trait: random further impls
+            // nearly always overlap it without specializing, and a rejected program says nothing about priorities
+            if r.chance(50) {
+                continue;
             }
         }
         for _ in 0..n {
